@@ -15,6 +15,9 @@
 //	       at all; its `retired` goes through the real app.NotifyServiceRetired
 //	dead - hosted according to the configuration but INodeApp.GetService is nil
 //
+// `reset ... stop=later|inline1|inline0`: the recording INodeApp completes StopNode through a later
+// `stopdone` op (or never), or inside the StopNode call with true / false.
+//
 // One observation per op:
 //
 //	r=<reply class> pub=<states published> stop=<StopNode calls> sent=<sorted name:cmd> st=<NodeCtrl.GetState()>
@@ -86,6 +89,9 @@ type recApp struct {
 	names []string
 	pids  map[string]*actor.PID
 	r     *rec
+	// how StopNode completes: "later" (op stopdone), "inline1" / "inline0": the callback runs inside
+	// StopNode, before it returns, with true / false (what baseapp does when every module stops synchronously)
+	stopMode string
 }
 
 func (a *recApp) GetActorSystem() *actor.ActorSystem { return a.sys }
@@ -103,8 +109,14 @@ func (a *recApp) UpdateNodeState(state int) {
 func (a *recApp) StopNode(fin func(succ bool)) {
 	a.r.mu.Lock()
 	a.r.stops++
-	a.r.fins = append(a.r.fins, fin)
+	inline := a.stopMode == "inline1" || a.stopMode == "inline0"
+	if !inline {
+		a.r.fins = append(a.r.fins, fin)
+	}
 	a.r.mu.Unlock()
+	if inline && fin != nil {
+		fin(a.stopMode == "inline1")
+	}
 }
 
 // ---------------------------------------------------------------- raw scripted actor
@@ -281,7 +293,7 @@ func (w *world) spawnRaw(name string) (*rawSvc, *actor.PID) {
 	return s, pid
 }
 
-func newWorld(kinds []string) *world {
+func newWorld(kinds []string, stopMode string) *world {
 	if cur != nil {
 		cur.teardown()
 	}
@@ -290,7 +302,7 @@ func newWorld(kinds []string) *world {
 	// the real stateutils.NotifyServiceRetired reaches the controller through the global app.Node
 	app.Node = app.NewNode()
 	w.ctrl = app.Node.GetNodeCtrl()
-	w.app = &recApp{sys: w.sys, pids: map[string]*actor.PID{}, r: w.r}
+	w.app = &recApp{sys: w.sys, pids: map[string]*actor.PID{}, r: w.r, stopMode: stopMode}
 	for i, k := range kinds {
 		s := &svc{name: fmt.Sprintf("s%d", i), kind: k}
 		switch k {
@@ -397,7 +409,8 @@ func exec(op string) string {
 		if k != "" {
 			kinds = strings.Split(k, ",")
 		}
-		w := newWorld(kinds)
+		sm, _ := hx.KV(ws, "stop")
+		w := newWorld(kinds, sm)
 		return w.obs(func(string, bool) string { return "-" })
 	}
 	w := cur
@@ -510,7 +523,9 @@ func (g *gen) reset() (string, []string) {
 	if allSup && n > 0 {
 		h.Count("reset.all-can-support")
 	}
-	return "reset k=" + strings.Join(ks, ","), ks
+	mode := []string{"later", "later", "inline1", "inline1", "inline0"}[h.R.Intn(5)]
+	h.Count("reset.stop-" + mode)
+	return "reset k=" + strings.Join(ks, ",") + " stop=" + mode, ks
 }
 
 func (g *gen) idx(n int) string {
@@ -712,6 +727,9 @@ func TestExhaustive(t *testing.T) {
 		enum("raw-nok", "reset k=raw,nok", full, hx.EnvInt("VERIF_EXH_LEN2", 4))
 		enum("raw", "reset k=raw", full, hx.EnvInt("VERIF_EXH_LEN2", 4))
 		enum("nok-dead", "reset k=nok,dead", full, 3)
+		enum("raw-raw-inline1", "reset k=raw,raw stop=inline1", core, hx.EnvInt("VERIF_EXH_LEN3", 5))
+		enum("raw-nok-inline1", "reset k=raw,nok stop=inline1", full, hx.EnvInt("VERIF_EXH_LEN2", 4))
+		enum("raw-inline0", "reset k=raw stop=inline0", full, hx.EnvInt("VERIF_EXH_LEN2", 4))
 		h.Close()
 		os.Stdout.Sync()
 		syscall.Exit(0)
